@@ -2,7 +2,9 @@
 
 use super::common::*;
 use crate::case::*;
+use crate::compile::{CompileStatus, ProbeResult};
 use crate::engine::*;
+use crate::py::Py;
 use crate::gen::names::*;
 use crate::gen::{self, G};
 use crate::ingest::{self, Outcome};
@@ -159,6 +161,14 @@ impl Property for C08 {
                 case_of(u, &names)
             }
         }));
+        // dynamic half: a deterministic sample is compiled and an instance keyed by the
+        // original names is round-tripped through the generated type
+        let every = (out.len() / tier.pick(160, 3000)).max(1);
+        for (i, c) in out.iter_mut().enumerate() {
+            if i % every == 0 {
+                c["compile"] = json!(true);
+            }
+        }
         out
     }
     fn prepare(&self, c: &Value) -> Unit {
@@ -241,7 +251,86 @@ impl Property for C08 {
             }
             _ => {}
         }
+        if c["compile"].as_bool() == Some(true) && unit.violations.is_empty() && r.index.items.contains_key("Holder") && usage != "def" {
+            let mut drv = Driver::new();
+            drv.arm(0, "rt", "rt", "Holder");
+            // an instance keyed by the original names
+            let ptype = c["ptype"].as_u64().unwrap_or(0);
+            let inst: Option<Value> = match usage {
+                "prop" => {
+                    let first: Value = match ptype {
+                        0 => json!(7),
+                        1 => json!("s"),
+                        2 => json!({"k": "v"}),
+                        3 => json!([1, 2]),
+                        4 => json!("n"),
+                        5 => json!({"k": 1}),
+                        6 => json!(false),
+                        7 => json!({"inner": 3}),
+                        8 => json!(["u"]),
+                        _ => json!("other"),
+                    };
+                    let mut m = Map::new();
+                    for (i, n) in names.iter().enumerate() {
+                        m.insert(n.clone(), if i == 0 { first.clone() } else if i % 2 == 0 { json!(1) } else { json!("x") });
+                    }
+                    Some(Value::Object(m))
+                }
+                "enum" => Some(json!(names[names.len() - 1])),
+                "variant" => {
+                    let i = names.len() - 1;
+                    let mut m = Map::new();
+                    m.insert(names[i].clone(), if i % 2 == 0 { json!(5) } else { json!("x") });
+                    Some(Value::Object(m))
+                }
+                _ => None,
+            };
+            if let Some(inst) = inst {
+                unit.probes.push(Probe { root: 0, op: "rt".into(), arg: inst, tag: String::new() });
+                let (m, _) = module(&None, r.text, &drv);
+                unit.module = Some(m);
+            }
+        }
         unit
+    }
+    fn judge(&self, _c: &Value, unit: &Unit, compile: &CompileStatus, probes: &[ProbeResult], _py: &mut Py) -> Result<Judged, String> {
+        let mut j = Judged::default();
+        if unit.module.is_none() {
+            return Ok(j);
+        }
+        match compile {
+            CompileStatus::Ok => {}
+            CompileStatus::NotCompiled => return Ok(j),
+            CompileStatus::Failed(diags) => {
+                if diags.iter().all(|d| d.file != "gen") {
+                    return Err(format!("harness driver does not compile: {}", diags[0].message));
+                }
+                // identifiers that syn accepts but rustc does not are this property's subject
+                let d = diags.iter().find(|d| d.file == "gen").unwrap();
+                j.violations.push(Violation::new("generated-identifiers-do-not-compile", format!("{} {} | {}", d.code, d.message, d.snippet)));
+                return Ok(j);
+            }
+        }
+        *j.counters.entry("compiled_roundtrips".into()).or_default() += 1;
+        for (p, r) in unit.probes.iter().zip(probes) {
+            match r {
+                ProbeResult::Ok(out) => {
+                    if out["first"] != p.arg || out["second"] != p.arg {
+                        j.violations.push(Violation::new("wire-name-roundtrip", format!("instance {} keyed by the original names comes back as {}", p.arg, out["first"])));
+                    }
+                }
+                ProbeResult::NotRun => return Err("probe not run on a compiled module".into()),
+                other => j.violations.push(Violation::new("wire-name-roundtrip", format!("instance {} keyed by the original names is not accepted: {}", p.arg, other.brief()))),
+            }
+        }
+        Ok(j)
+    }
+    fn distinct_key(&self, case: &Value) -> String {
+        let mut c = case.clone();
+        if let Some(o) = c.as_object_mut() {
+            o.remove("compile");
+        }
+        c.to_string()
     }
     fn in_domain(&self, case: &Value) -> bool {
         doc_of(case).is_some()
